@@ -453,6 +453,21 @@ def call_np(ip, name, args, kwargs, lineno):
         if hi is not None:
             r = M.elementwise(lambda x, y: Min(x, y), r, hi, "int", lineno) if (M.is_arr(r) or M.is_arr(hi)) else Min(r, hi)
         return r
+    if name == "where" and len(args) == 3 and isinstance(args[0], SArr2) and isinstance(args[1], SRagged) and isinstance(args[2], SRagged):
+        # np.where((n,1) boolean column, ragged, ragged): the column chooses ROW by row between two ragged arrays of the same shape
+        # (npstructures broadcasts the column along each row; both operands must have the same row lengths: obligation).  A new array.
+        cnd, a, b = args
+        if conc(cnd.cols) != 1:
+            raise Unsupported("np.where on ragged operands needs an (n, 1) condition")
+        M.use("np.where((n,1) mask, ragged, ragged): row-wise choice between two ragged arrays of the same shape")
+        M.same_len(cnd.rows, a.n, "where.rows", lineno)
+        M.same_len(a.n, b.n, "where.rows", lineno)
+        la, lb, fc = a.lens, b.lens, cnd.snapshot2()
+        ip.ctx.oblige("%s:where.same.row.lengths@L%s" % (ip.ctx.fname, lineno), Forall(lambda i: Implies(in_range(i, a.n), I(la(i)) == I(lb(i)))), "safety", lineno)
+        fa, fb = a.at, b.at
+        out = SRaggedObj(None, a.n, a.starts, a.lens, a.enc if a.enc is not None else b.enc, a.total, a.contiguous, getattr(a, "C", None))
+        out.at = lambda i, k: Ite(B(fc(i, 0)), fa(i, k), fb(i, k))
+        return out
     if name == "where":
         if len(args) == 3:
             cnd, a, b = args
